@@ -319,10 +319,23 @@ package bfe_spdy
 //@   ensures[a_data_frame_holds_at_most_what_its_length_field_says] result1 == nil ==> result0 != nil && len(result0.Data) <= MaxDataLength && result0.StreamId != 0
 
 //@ func parseHeaderValueBlock
-//@   props C39
+//@   props C39,C25
 //@   nopanic makeslice,index
 //@   requires r != nil
 //@   modifies *
 //@   assert[a_header_name_is_allocated_only_within_the_size_of_a_frame] at "nameBytes := make([]byte, length)" :: length <= MaxDataLength
 //@   assert[a_header_value_is_allocated_only_within_the_size_of_a_frame] at "value := make([]byte, length)" :: length <= MaxDataLength
+//@   assert[a_field_whose_name_could_break_an_http1_header_line_makes_the_block_invalid] at "h.Add(name, v)" :: nameOK(name) || e != nil
 //@   assert[the_header_table_is_allocated_for_a_bounded_number_of_fields] at "h := make(http.Header, int(numHeaders))" :: numHeaders <= MaxNumHeaders
+
+// ---- C25: a SPDY header name that could end the name or the line in an HTTP/1.1 request never reaches the backend ----
+
+//@ spec nameOK(name string) bool := len(name) > 0 && (forall i int :: 0 <= i && i < len(name) ==> name[i] > 32 && name[i] < 127 && (name[i] == 58 ==> i == 0))
+
+//@ func validHeaderName
+//@   props C25
+//@   nopanic
+//@   modifies nothing
+//@   ensures[only_visible_ascii_without_colon_space_or_control_bytes] result0 ==> nameOK(name)
+//@   ensures[every_such_name_is_accepted] nameOK(name) ==> result0
+//@   loop 1 invariant[checked_so_far] 0 <= i && i <= len(name) && len(name) > 0 && (forall k int :: 0 <= k && k < i ==> name[k] > 32 && name[k] < 127 && (name[k] == 58 ==> k == 0))
